@@ -34,7 +34,7 @@ def run(prop, path):
         for c in t["calls"][:-1]:
             pos += len(c["chunk"])
             cuts.append(pos)
-        nt = FC.run_stream(t["id"], t["mode"], t["kind"], t["dir"], data, t["sent"], cuts, [1] + [s["uid"] for s in t["sent"][:1]], False, g=t.get("g", 0))
+        nt = FC.run_stream(t["id"], t["mode"], t["kind"], t["dir"], data, t["sent"], cuts, [1] + [x["uid"] for x in t["sent"][:1]], False, g=t.get("g", 0))
         v, _ = validate_traces("FramingTrace", "FramingTrace.cfg", [nt], shards=1)
     elif eng == "ServerTrace":
         import servercheck as SC
